@@ -4,14 +4,24 @@ current working tree without touching it.
 usage: mkoverlay.py <repo> <harness dir> <out dir>"""
 import json, os, sys
 
+import re
 repo, harness, out = sys.argv[1:4]
+prop = (sys.argv[4] if len(sys.argv) > 4 else "").lower()
 replace = {}
+
+def selected(f):
+    """Files named cNN... belong to one property and are only compiled into that
+    property's binary, so a broken or slow check cannot affect the others."""
+    m = re.match(r"(c\d{2,3})", f)
+    if not m:
+        return True
+    return prop == "" or m.group(1) == prop
 
 def add_dir(src, dst_dir, prefix="", must_suffix=None):
     if not os.path.isdir(src):
         return
     for f in sorted(os.listdir(src)):
-        if not f.endswith(".go"):
+        if not f.endswith(".go") or not selected(f):
             continue
         if must_suffix and not f.endswith(must_suffix):
             raise SystemExit("harness file %s/%s must end with %s" % (src, f, must_suffix))
